@@ -400,7 +400,7 @@ func runC17(ctx *core.Ctx) {
 	}
 	rec("", ctx.Pick(4, 5))
 	wide := []string{"a", "b", "y", "z", "A", "M", "Z", "0", "5", "9", "_", "-", ".", " ", "/", "K", "İ", "ı", "ſ", "é", "É", "日", "😀", "\t", "`", "{", "@", "[", ":"}
-	for i := 0; i < ctx.Pick(20000, 400000); i++ {
+	for i := 0; i < ctx.Pick(8000, 400000); i++ {
 		var b strings.Builder
 		for j, n := 0, 1+ctx.Rng.Intn(12); j < n; j++ {
 			b.WriteString(wide[ctx.Rng.Intn(len(wide))])
@@ -414,16 +414,16 @@ func runC17(ctx *core.Ctx) {
 	ctx.Res.Exhaustive = true
 
 	// 2. seeded random worlds: documented order (spec oracle applies), then any order (model correspondence + invariants)
-	for i := 0; i < ctx.Pick(12000, 400000); i++ {
+	for i := 0; i < ctx.Pick(6000, 400000); i++ {
 		ctx.Count("random-documented-order")
 		ctx.Add("c17load", c17Random(ctx.Rng, true, false))
 	}
-	for i := 0; i < ctx.Pick(8000, 300000); i++ {
+	for i := 0; i < ctx.Pick(4000, 300000); i++ {
 		ctx.Count("random-any-order")
 		ctx.Add("c17load", c17Random(ctx.Rng, false, false))
 	}
 	// 3. malformed stream
-	for i := 0; i < ctx.Pick(5000, 150000); i++ {
+	for i := 0; i < ctx.Pick(2500, 150000); i++ {
 		ctx.Count("malformed")
 		ctx.Add("c17load", c17Random(ctx.Rng, ctx.Rng.Intn(2) == 0, true))
 	}
